@@ -429,8 +429,13 @@ def _report_spacing(lim, case, v):
             sub['shape'] = max(sub['shape'], max(r[1] for r in sub['rows']) + 1)
         sv = check_spacing(sub)
         if sv:
-            lim.report(sv, sub, key)
-            explained = True
+            # control: the same two rows with the right one moved to a countable gap must pass
+            left, right, _ = _gap(sub['rows'][0], sub['rows'][1])
+            g = 0 if pair is ov else md - 1
+            ctrl = dict(sub, rows=[list(left), [right[0], right[1], left[3] + g, left[3] + g + right[3] - right[2]]])
+            if not check_spacing(ctrl):
+                lim.report(sv, sub, key)
+                explained = True
     if not explained:
         lim.report([x[:400] for x in v], case, None)
     elif len(rows) > 2:
